@@ -123,6 +123,53 @@ out.append("def ociNamePattern : Bytes := " + bl(pattern))
 m = re.search(r"const\s+NAME\s*:\s*&'static\s+str\s*=\s*\"([^\"]*)\"", nsrc)
 out.append("def ociConstraintName : Bytes := " + bl(m.group(1) if m else ""))
 
+# --- C19: the format strings of the route-table errors (`impl Display` of src/errors/{insert,delete,constraint}.rs)
+def display_formats(rel):
+    """[(Variant, format string)] of the `write!(f, "...")` arms of the file's `impl Display`, in source order"""
+    src_ = read(rel)
+    m_ = re.search(r"impl\s+Display\s+for\s+\w+\s*\{(.*?)\n\}\n", src_, flags=re.S)
+    if not m_:
+        return []
+    body_ = m_.group(1)
+    res = []
+    arms = list(re.finditer(r"Self::(\w+)\s*(\{[^{}]*\}|\([^()]*\))?\s*=>", body_))
+    for i_, a in enumerate(arms):
+        seg = body_[a.end(): arms[i_ + 1].start() if i_ + 1 < len(arms) else len(body_)]
+        w = re.search(r"write!\(\s*f\s*,\s*(r?)\"(.*?)\"\s*,?\s*\)", seg, flags=re.S)
+        if not w:
+            continue
+        text = w.group(2)
+        if not w.group(1):
+            text = text.encode("utf-8").decode("unicode_escape").encode("latin-1").decode("utf-8")
+        res.append((a.group(1), text, seg))
+    return res
+
+
+fmts = []
+for rel in ["src/errors/insert.rs", "src/errors/delete.rs", "src/errors/constraint.rs"]:
+    fmts += display_formats(rel)
+status["error_formats"] = "ok" if len(fmts) >= 5 else "unavailable"
+out.append("/-- (variant, format string) of the `write!` arms of the Display impls of InsertError, DeleteError, ConstraintError -/")
+out.append("def errorFormats : List (Bytes × Bytes) := " + lst(f"({bl(v)}, {bl(t)})" for v, t, _ in fmts))
+# the list of conflicts: `conflicts.iter().map(|conflict| format!("…{conflict}")).collect::<Vec<_>>().join("…")<more calls>`
+item, sep, chain = "", "", []
+for v, t, seg in fmts:
+    if v == "Conflict":
+        mi = re.search(r"format!\(\s*\"(.*?)\"\s*\)", seg, flags=re.S)
+        mj = re.search(r"\.collect::<Vec<_>>\(\)(.*?);", seg, flags=re.S)
+        if mi:
+            item = mi.group(1)
+        if mj:
+            chain = re.findall(r"\.(\w+)\(", mj.group(1))
+            ms = re.search(r"\.join\(\s*\"(.*?)\"\s*\)", mj.group(1), flags=re.S)
+            if ms:
+                sep = ms.group(1).encode("utf-8").decode("unicode_escape")
+status["conflict_list_format"] = "ok" if item and chain else "unavailable"
+out.append("/-- how `Conflict` renders its list: the per-item format string, the separator, and the methods applied after `collect` -/")
+out.append("def conflictItemFormat : Bytes := " + bl(item))
+out.append("def conflictSeparator : Bytes := " + bl(sep))
+out.append("def conflictChain : List Bytes := " + lst(bl(c) for c in chain))
+
 # --- C07: panic sites per file: index/slice expressions, unwrap/expect, explicit subtraction
 sites = []
 for rel in ["src/parser.rs", "src/router.rs", "src/node/insert.rs", "src/node/find.rs", "src/node/delete.rs", "src/node/search.rs",
